@@ -470,18 +470,18 @@ Qed.
 
 Definition reset_query_bytes (s : sock) : list byte := [version s mod 256; c_RESET_QUERY] ++ enc16 0 ++ enc32 8.
 
-Lemma tr_send_all_whole b w : sends w = [] -> (0 < List.length b <= 8192)%nat ->
+Lemma tr_send_all_whole b w : sends w = [] -> 0 < zlen b <= 8192 ->
   tr_send_all b w = Ok (zlen b) (with_out w (TSend b :: out w)).
 Proof.
-  intros Hs Hl. unfold tr_send_all. destruct b as [|x b]; [cbn in Hl; lia|].
+  intros Hs Hl. unfold tr_send_all. destruct b as [|x b]; [unfold zlen in Hl; cbn in Hl; lia|].
   cbn [List.length tr_send_all_loop]. unfold bind at 1. unfold tr_send. rewrite Hs.
-  assert (Hn : Z.min (zlen (x :: b)) (Z.min 1000000 8192) = zlen (x :: b)) by (unfold zlen; lia).
+  assert (Hn : Z.min (zlen (x :: b)) (Z.min 1000000 8192) = zlen (x :: b)) by lia.
   cbn [Z.ltb Z.compare]. rewrite Hn.
   assert (Hf : Z.to_nat (zlen (x :: b)) = List.length (x :: b)) by (unfold zlen; apply Nat2Z.id).
   rewrite Hf, firstn_all.
   assert (H1 : zlen (x :: b) <? 0 = false) by (apply Z.ltb_ge; unfold zlen; lia).
   assert (H2 : zlen (x :: b) =? 0 = false) by (apply Z.eqb_neq; unfold zlen; cbn [List.length]; lia).
-  rewrite H1, H2, skipn_all. destruct (List.length b); reflexivity.
+  rewrite H1, H2, skipn_all. destruct (List.length b); cbn [tr_send_all_loop]; unfold ret, with_out; rewrite Hs, Z.add_0_l; reflexivity.
 Qed.
 
 Theorem reset_sends_reset_query fuel w : st (sk w) = c_RTR_RESET -> sends w = [] ->
@@ -492,7 +492,7 @@ Proof.
   unfold send_reset_query. unfold bind at 1. unfold bind at 1, get_sk. unfold send_pdu. unfold bind at 1, get_sk.
   rewrite Hst. const_dec. unfold bind at 1.
   fold (reset_query_bytes (sk w)).
-  rewrite (tr_send_all_whole (reset_query_bytes (sk w)) w Hs) by (cbn; lia).
+  rewrite (tr_send_all_whole (reset_query_bytes (sk w)) w Hs) by (unfold zlen; cbn [reset_query_bytes List.length app enc16 enc32]; lia).
   unfold ret. cbn [zlen reset_query_bytes List.length app enc16 enc32 Z.of_nat Pos.of_succ_nat Pos.succ Z.gtb Z.compare Z.eqb].
   rewrite change_state_eq'. unfold state_changed. cbn [sk with_out]. rewrite Hst. const_dec.
   eexists. split; [reflexivity|]. cbn [sk st with_sk with_out upd_st out]. auto.
